@@ -38,7 +38,9 @@ def all_fixeddict_types():
 
 FD_TYPES = all_fixeddict_types()
 FD_NAMES = sorted(FD_TYPES)
-UNDECLARED = ["bogus", "_bogus", "", "Name", "frame_widht", 5, "pic_num", "x" * 40]
+UNDECLARED = ["bogus", "_bogus", "", "Name", "frame_widht", 5, "pic_num", "x" * 40,
+              # names that coincide with parameter names of dict / mapping methods
+              "E", "F", "self", "args", "kwargs", "cls", "other", "mapping", "iterable", "key", "default", "value", "d", "m"]
 
 
 def _key(cls, k):
